@@ -598,6 +598,32 @@ Section Bodies.
 
   Definition GROUP_FORMULA : str := zs "table.getSummarySourceGroup(rec)".
 
+  (* the group-by columns of summary table t: for each ref in its name, the column of t with the source column's id *)
+  Fixpoint m7_groupby (by_ref by_tc : list (val * record)) (t : record) (refs : list Z)
+           (gb : list record) (sc : list (record * rid)) : res (list record * list (record * rid)) :=
+    match refs with
+    | [] => Ok (gb, sc)
+    | z :: rest =>
+        match pd_get (VInt z) by_ref with
+        | None => m7_groupby by_ref by_tc t rest gb sc
+        | Some src_col =>
+            bind (fld (zs "colId") src_col) (fun cid => bind (hash_key cid) (fun cid =>
+            match pd_get (VList [rid_val (fst t); cid]) by_tc with
+            | Some sum_col => bind (rec_hashable sum_col) (fun _ =>
+                              m7_groupby by_ref by_tc t rest (gb ++ [sum_col]) (sc ++ [(sum_col, fst src_col)]))
+            | None => m7_groupby by_ref by_tc t rest gb sc
+            end))
+        end
+    end.
+
+  (* c.parentId == t.id and c not in groupby_cols and not c.isFormula *)
+  Definition m7_rm2 (t : record) (gb : list record) (c : record) : res bool :=
+    bind (all_eq c [(zs "parentId", rid_val (fst t))]) (fun own =>
+    if negb own then Ok false else
+    bind (rec_hashable c) (fun _ =>
+    if existsb (rec_eqb c) gb then Ok false else
+    bind (fld (zs "isFormula") c) (fun f => Ok (negb (val_truthy f))))).
+
   Definition m7_table (name_to_ref : list (val * rid)) (columns : list record) (by_ref : list (val * record))
              (by_tc : list (val * record)) (st : m7_state) (t : record) : res m7_state :=
     bind (fld (zs "tableId") t) (fun tid => bind (as_str TypeErr tid) (fun name =>
@@ -619,27 +645,9 @@ Section Bodies.
             bind (filterM (fun c => all_eq c [(zs "parentId", rid_val (fst t)); (zs "colId", VStr (zs "group"));
                                               (zs "formula", VStr expected)]) columns) (fun fu =>
             (* groupby columns of the summary table *)
-            bind ((fix go (refs : list Z) (gb : list record) (sc : list (record * rid)) : res (list record * list (record * rid)) :=
-                     match refs with
-                     | [] => Ok (gb, sc)
-                     | z :: rest =>
-                         match pd_get (VInt z) by_ref with
-                         | None => go rest gb sc
-                         | Some src_col =>
-                             bind (fld (zs "colId") src_col) (fun cid => bind (hash_key cid) (fun cid =>
-                             match pd_get (VList [rid_val (fst t); cid]) by_tc with
-                             | Some sum_col => bind (rec_hashable sum_col) (fun _ =>
-                                               go rest (gb ++ [sum_col]) (sc ++ [(sum_col, fst src_col)]))
-                             | None => go rest gb sc
-                             end))
-                         end
-                     end) refs [] []) (fun gbsc =>
+            bind (m7_groupby by_ref by_tc t refs [] []) (fun gbsc =>
             let '(gb, sc) := gbsc in
-            bind (filterM (fun c => bind (all_eq c [(zs "parentId", rid_val (fst t))]) (fun own =>
-                                    if negb own then Ok false else
-                                    bind (rec_hashable c) (fun _ =>
-                                    if existsb (rec_eqb c) gb then Ok false else
-                                    bind (fld (zs "isFormula") c) (fun f => Ok (negb (val_truthy f)))))) columns) (fun rm2 =>
+            bind (filterM (m7_rm2 t gb) columns) (fun rm2 =>
             Ok (mk7 (s7_names st ++ [VStr new_name]) (s7_remove st ++ rm1 ++ rm2)
                     (s7_formulas st ++ map (fun c => (c, new_name, GROUP_FORMULA)) fu)
                     (s7_renames st ++ [(t, new_name)]) (s7_src_tables st ++ [(t, src_ref)])
